@@ -468,12 +468,20 @@ def cases(draw):
                 mod, it, impl, m = ms2[draw(st.integers(0, len(ms2) - 1))]
                 m["params"].insert(0, ["dv_fault", ty, []])
                 pf.append({"rule": "unsupported-" + flag, "position": "param", "ctx": "%s::%s" % (it["name"], m["name"]), "depth": 1, "program": p2})
-    return prof, prog, muts + pf
+    # a bridged trait (traits supported) one of whose methods breaks a rule: a clean rejection naming the trait method
+    tf = []
+    bad = draw(st.sampled_from([("result-as-param", "x: Result<u8, u8>"), ("ref-to-primitive", "x: &u8"), ("unit-as-param", "x: ()")]))
+    p3 = copy.deepcopy(prog)
+    p3["modules"][0].setdefault("raw_items", []).append("pub trait DvFaultTrait { fn dv_ok(&self, a: u8) -> u8; fn dv_bad(&self, %s); }" % bad[1])
+    tf.append({"rule": bad[0] + "-in-trait-method", "position": "trait", "ctx": "DvFaultTrait::dv_bad", "depth": 1, "program": p3, "support_over": {"traits": True}})
+    return prof, prog, muts + pf + tf
 
 
-def evaluate(pr, prog, prof, expect_ctx=None):
+def evaluate(pr, prog, prof, expect_ctx=None, support_over=None):
     src = ir.render_program(prog)
-    rep = pr.ask(src, support=support_of(prof))
+    sup = support_of(prof)
+    sup.update(support_over or {})
+    rep = pr.ask(src, support=sup)
     return src, rep
 
 
@@ -523,7 +531,7 @@ def worker(widx, seed, params):
                 acc.violation("%s\nprofile %s\n--- lib.rs ---\n%s" % (verdict_valid(r2) or msg, prof, s2), {"profile": prof, "program": small, "kind": "valid"}, signature=sig)
             return
         for mut in muts:
-            s2, r2 = evaluate(pr, mut["program"], prof)
+            s2, r2 = evaluate(pr, mut["program"], prof, support_over=mut.get("support_over"))
             m2 = verdict_mutant(r2, mut)
             nt = mut["depth"] >= 2 or mut["position"].startswith(("return", "out-field", "lifetime"))
             acc.case([ir.dumps(mut["program"]), ptag, mut["rule"]], nt,
@@ -535,7 +543,7 @@ def worker(widx, seed, params):
                     acc.extra["known:" + sig] += 1
                     continue
                 acc.violation("%s\nprofile %s\n--- lib.rs ---\n%s" % (m2, prof, s2),
-                              {"profile": prof, "program": mut["program"], "kind": "mutant", "rule": mut["rule"], "ctx": mut["ctx"], "position": mut["position"], "depth": mut["depth"]},
+                              {"profile": prof, "program": mut["program"], "kind": "mutant", "rule": mut["rule"], "ctx": mut["ctx"], "position": mut["position"], "depth": mut["depth"], "support_over": mut.get("support_over")},
                               signature=sig)
 
     pbt.explore(cases(), body, params["n"], seed)
@@ -645,7 +653,7 @@ def replay(ctx):
         build.rm_workdir(work)
         return {"violations": [{"replay": ctx.replay, "message": r.stderr[-500:]}] if bad else []}
     pr = probe_mod.Probe()
-    src, rep = evaluate(pr, c["program"], c["profile"])
+    src, rep = evaluate(pr, c["program"], c["profile"], support_over=c.get("support_over"))
     msg = verdict_valid(rep) if c["kind"] == "valid" else verdict_mutant(rep, c)
     pr.close()
     print(src)
